@@ -200,3 +200,77 @@ class C03(L1Prop):
 
 
 ALL = {"C03": C03}
+
+
+# ------------------------------------------------------------------ overlap component of C02 / C07 / C08 / C11
+def overlap_cases(prop, rng, tier):
+    """a few scheduled overlaps whose outcome the property itself speaks about"""
+    groups = {
+        "C02": [("AVlatest", "AVlatest"), ("AVnew", "AVnew"), ("AVnewP", "AVnew"), ("AVlatest", "AVstale")],
+        "C07": [("AVlatest", "AVlatest"), ("AVnew", "AVnew"), ("AVlatest", "ASlatest")],
+        "C08": [("AVlatest", "GCVlatest"), ("AVnew", "GCVnew"), ("AVlatest", "AVlatest")],
+        "C11": [("ASlatest", "GS"), ("ASlatest", "AVlatest"), ("ASlatest", "ASlatest")],
+        "C01": [("AVlatest", "AVlatest"), ("AVnew", "AVnew")],
+    }[prop]
+    scheds = [list(s) for s in itertools.product("01", repeat=4)] if tier == "thorough" else \
+             [list("0011"), list("0101"), list("0110"), list("1001"), list("0001"), list("1000"), list("0100")]
+    out = []
+    k = 0
+    for (a, b) in groups:
+        for s in scheds:
+            reqs = [KINDS[a].format(d="21"), KINDS[b].format(d="22")]
+            ops = list(PREFIX) + ["conc shared " + " || ".join(reqs) + " ## " + " ".join(s), "dump 1", "dump 5", "walk 1", "walk 5",
+                                  "http GET gcv hyph=ver:1:2 hyph=1 absent e", "http GET snap - hyph=1 absent e", "swalk 1"]
+            out.append(Case(f"{prop.lower()}-ovl-{k}", ops, {"reqs": reqs, "group": f"{a}+{b}", "sched": s, "cmode": "shared", "overlap": True}, mode="http"))
+            k += 1
+    return out
+
+
+def overlap_oracle(prop, case, trace, backend):
+    """property-specific reading of an overlapping outcome (no reference to other executions)"""
+    fails = []
+    start = None
+    for i, (o, ri, rm) in enumerate(trace):
+        if o.startswith("conc "):
+            start, n = i, int(o.split()[2])
+    if start is None:
+        return fails
+    reqs = [(HOp(trace[start + 1 + k][0]), HResp(trace[start + 1 + k][1])) for k in range(n)]
+    dumps = [Dump(ri) for (o, ri, rm) in trace[start:] if o.startswith("dump ")]
+    where = f"(overlap {case.meta['group']}, schedule {case.meta['sched']}, {backend})"
+    acc = [(h, r) for h, r in reqs if h.route == "av" and r.status == 200]
+    if prop in ("C02", "C01"):
+        parents = [(h.cid, h.seg) for h, r in acc]
+        if len(parents) != len(set(parents)):
+            fails.append(f"two overlapping AddVersion requests were both accepted on the same parent {parents} {where}")
+        for h, r in reqs:
+            if h.route == "av" and r.status not in (200, 409):
+                fails.append(f"overlapping AddVersion answered {r.status} {where}")
+    if prop in ("C07", "C01", "C02"):
+        # every accepted version is stored and on the chain of its client
+        for h, r in acc:
+            found = False
+            for d in dumps:
+                if d.ok and not d.absent:
+                    ids, _ = d.chain_back()
+                    if r.xv.isdigit() and int(r.xv) in ids:
+                        found = True
+            if not found:
+                fails.append(f"accepted version {r.xv} is not on its client's chain after the overlap (orphaned) {where}")
+    if prop == "C08":
+        for h, r in reqs:
+            if h.route == "gcv" and r.status == 410:
+                # gone for a parent that is the latest before AND after every accepted append on it
+                if case.meta["group"] in ("AVlatest+GCVlatest", "AVnew+GCVnew"):
+                    fails.append(f"GetChildVersion answered gone although an AddVersion on that parent is accepted before and its child exists after {where}")
+            if h.route == "gcv" and r.status >= 500:
+                fails.append(f"GetChildVersion answered {r.status} {where}")
+    if prop == "C11":
+        for h, r in reqs:
+            if h.route == "snap" and r.status == 200:
+                ok = (r.xv, r.body) in {(hh.seg, hh.body()) for hh, rr in reqs if hh.route == "as"} or r.body == "100"
+                if not ok:
+                    fails.append(f"GetSnapshot returned id {r.xv} with bytes `{r.body[:30]}` that no single upload carried {where}")
+            if h.route in ("snap", "as") and r.status >= 500:
+                fails.append(f"{h.route} answered {r.status} during the overlap {where}")
+    return fails
